@@ -23,7 +23,10 @@
 
 #include <map>
 
+#include <signal.h>
+
 #include "oomd/Log.h"
+#include "oomd/Oomd.h"
 #include "oomd/OomdContext.h"
 #include "oomd/PluginRegistry.h"
 #include "oomd/Stats.h"
@@ -164,6 +167,27 @@ Config2::IR::Ruleset irRuleset(const Json::Value& r) {
   return ir;
 }
 
+// ---- "main_loop": true - the ticks are iterations of the real Oomd::run loop (src/oomd/Oomd.cpp) ------------------------------
+// The interposed sigtimedwait is the tick boundary: it closes the previous tick's event list, advances the virtual clock by
+// the next tick's gap, installs its script and returns -1/EAGAIN; after the last tick it returns SIGTERM and Oomd::run leaves
+// through the (interposed, no-op) pthread_kill.
+const Json::Value* g_ml_ticks = nullptr;
+Json::Value* g_ml_out = nullptr;
+int g_ml_tick = -1;
+Json::Value g_ml_cur(Json::arrayValue);
+
+void installCalls(const Json::Value& t) {
+  g_calls.clear();
+  const Json::Value& calls = t["calls"];
+  for (auto it = calls.begin(); it != calls.end(); ++it) {
+    Call c;
+    c.ret = (*it)[0].asInt();
+    c.adv = (*it)[1].asInt64();
+    c.pause = (*it)[2].asInt64();
+    g_calls[std::stoi(it.key().asString())] = c;
+  }
+}
+
 int64_t statOf(const std::string& key) {
   auto all = Oomd::getStats();
   auto it = all.find(key);
@@ -192,6 +216,28 @@ void runScenario(const Json::Value& sc, Json::Value& out) {
   Json::Value ticks(Json::arrayValue);
   Json::Value ops(Json::arrayValue);
   int tickNo = 0;
+  if (sc.get("main_loop", false).asBool()) {
+    g_ml_ticks = &sc["ticks"];
+    g_ml_out = &ticks;
+    g_ml_tick = -1;
+    g_ml_cur = Json::Value(Json::arrayValue);
+    g_events = &g_ml_cur;
+    {
+      auto ir = std::make_unique<Config2::IR::Root>(root);
+      Oomd::Oomd oomd(std::move(ir), std::move(engine), 5, cgfs, "");
+      sigset_t mask;
+      sigemptyset(&mask);
+      oomd.run(&mask);
+    }
+    g_events = nullptr;
+    g_ml_ticks = nullptr;
+    out["ticks"] = ticks;
+    out["ops"] = ops;
+    out["main_loop"] = true;
+    out["leaked_instances"] = g_live_instances;
+    vh::rmrf(top);
+    return;
+  }
   for (const auto& t : sc["ticks"]) {
     vh::advanceNs(t["gap"].asInt64());
     if (t.isMember("delta")) vh::applyDelta(cgfs, t["delta"]);
@@ -248,6 +294,25 @@ void runScenario(const Json::Value& sc, Json::Value& out) {
 }
 
 } // namespace
+
+extern "C" {
+int pthread_kill(pthread_t, int) { return 0; }
+
+int sigtimedwait(const sigset_t*, siginfo_t*, const struct timespec*) {
+  if (!g_ml_ticks) { errno = EAGAIN; return -1; }
+  if (g_ml_tick >= 0) {             // close the tick that just ran
+    g_ml_out->append(g_ml_cur);
+    g_ml_cur = Json::Value(Json::arrayValue);
+  }
+  g_ml_tick++;
+  if (g_ml_tick >= (int)g_ml_ticks->size()) return SIGTERM;
+  const Json::Value& t = (*g_ml_ticks)[g_ml_tick];
+  vh::advanceNs(t["gap"].asInt64());
+  installCalls(t);
+  errno = EAGAIN;
+  return -1;
+}
+}
 
 int main() {
   std::string sock = vh::scratchRoot() + "/stats-" + std::to_string(getpid()) + ".sock";
